@@ -8,6 +8,7 @@ package main
 
 import (
 	"fmt"
+	"math"
 
 	"github.com/squadracorsepolito/acmelib"
 	"verif/c10/lib"
@@ -90,6 +91,43 @@ func (b *builder) floatVal() float64 {
 	return pool[b.r.Below(len(pool))]
 }
 
+// a fraction in [0,1) with 1..12 decimals
+func (b *builder) frac() float64 {
+	digits := 1 + b.r.Below(12)
+	p := 1
+	for i := 0; i < digits; i++ {
+		p *= 10
+	}
+	return float64(b.r.Below(p)) / float64(p)
+}
+
+// limits (and a default inside them) of a float attribute that are not multiples of 0.5: an integer part of any
+// sign plus a fraction of up to 12 decimals, one time in four tiny limits (below 1e-6 in magnitude)
+func (b *builder) fracLimits() (mn, mx, d float64) {
+	if b.r.Chance(1, 4) {
+		mn = float64(b.r.Below(2000)-1000) * 1e-9
+		mx = mn + float64(1+b.r.Below(1000))*1e-9
+	} else {
+		mn = float64(b.r.Below(40)-20) + b.frac()
+		mx = mn + float64(b.r.Below(3)) + b.frac()
+		if mx <= mn {
+			mx = mn + 1e-7
+		}
+	}
+	switch b.r.Below(3) {
+	case 0:
+		d = mn
+	case 1:
+		d = mx
+	default:
+		d = mn + (mx-mn)*b.frac()
+		if d < mn || d > mx {
+			d = mn
+		}
+	}
+	return
+}
+
 var boundaryInts = []int{-9223372036854775807, -9007199254740992, -4294967296, -2147483649, -2147483648, -1, 0, 1,
 	2147483647, 2147483648, 4294967295, 4294967296, 9007199254740992, 9223372036854775807}
 
@@ -141,6 +179,12 @@ func (b *builder) makeAttributes() {
 			if b.r.Chance(1, 2) {
 				d += 0.25
 			}
+			if b.r.Chance(1, 2) {
+				// limits with a fractional part of up to 12 decimals (or tiny limits below 1e-6) and the
+				// default on a limit or anywhere between: the BA_DEF_ limits must round trip digit for digit
+				mn, mx, d = b.fracLimits()
+				b.tag("attr-float-fractional-limits")
+			}
 			a, err := acmelib.NewFloatAttribute(name, d, mn, mx)
 			if err == nil {
 				b.atts = append(b.atts, a)
@@ -188,6 +232,23 @@ func (b *builder) assignSome(e assignable, kind string) {
 			}
 		case acmelib.AttributeTypeFloat:
 			fa, _ := a.ToFloat()
+			if fa.Min() != math.Trunc(fa.Min()) || 2*fa.Max() != math.Trunc(2*fa.Max()) || fa.Max()-fa.Min() < 1 {
+				// fractional limits: the value on the lower limit, on the upper limit or between them
+				switch b.r.Below(3) {
+				case 0:
+					v = fa.Min()
+				case 1:
+					v = fa.Max()
+				default:
+					f := fa.Min() + (fa.Max()-fa.Min())*b.frac()
+					if f < fa.Min() || f > fa.Max() {
+						f = fa.Min()
+					}
+					v = f
+				}
+				b.tag("assign-float-on-or-near-fractional-limit")
+				break
+			}
 			f := fa.Min() + float64(b.r.Below(int(fa.Max()-fa.Min())))
 			if b.r.Chance(1, 2) {
 				f += 0.5
